@@ -259,7 +259,7 @@ MUTATIONS += [
     dict(id="q-sum-einsum-renamed", file=TINNER, old="            \"fbi,foi->fbo\", inputs=(x,), operands=(weight,), dim=-1, keepdim=True\n        )  # shape (F, B, K_o).\n\n    def sample", new="            \"abc,adc->abd\", inputs=(x,), operands=(weight,), dim=-1, keepdim=True\n        )  # shape (F, B, K_o).\n\n    def sample", expect={}, quiet=True),
     dict(id="q-cat-logpart-keepdim", file=TINPUT, old="        return torch.logsumexp(logits, dim=2).unsqueeze(dim=1)", new="        return torch.logsumexp(logits, dim=-1).unsqueeze(dim=1)", expect={}, quiet=True),
     dict(id="q-gaussian-unsqueeze-none", file=TINPUT, old="        mean = self.mean().unsqueeze(dim=1)  # (F, 1, K)", new="        mean = self.mean()[:, None, :]  # (F, 1, K)", expect={}, quiet=True),
-    dict(id="q-lse-shift-hoisted", file=SEMI, old="        exp_xs = [torch.exp(xi - max_xi) for xi, max_xi in zip(xs, max_xs)]\n\n        # NOTE: exp_x is not tuple, but list still can be unpacked with *.\n        func_exp_xs = func(*cast(tuple[Tensor, ...], exp_xs))\n\n        reduced_max_xs = functools.reduce(torch.add, max_xs)  # Do n-1 add instead of n.\n        if not keepdim:\n            reduced_max_xs = reduced_max_xs.squeeze(dim)  # To match shape of func_exp_x.\n        return torch.log(func_exp_xs) + reduced_max_xs", new="        shifted = [xi - max_xi for xi, max_xi in zip(xs, max_xs)]\n        exp_xs = [torch.exp(s) for s in shifted]\n\n        # NOTE: exp_x is not tuple, but list still can be unpacked with *.\n        func_exp_xs = func(*cast(tuple[Tensor, ...], exp_xs))\n\n        reduced_max_xs = functools.reduce(torch.add, max_xs)  # Do n-1 add instead of n.\n        if not keepdim:\n            reduced_max_xs = reduced_max_xs.squeeze(dim)  # To match shape of func_exp_x.\n        return torch.log(func_exp_xs) + reduced_max_xs", expect={}, quiet=True),
+    dict(id="q-lse-shift-hoisted", file=SEMI, old="        exp_xs = [torch.exp(xi - max_xi) for xi, max_xi in zip(xs, max_xs)]\n\n        # NOTE: exp_x is not tuple, but list still can be unpacked with *.\n        func_exp_xs = func(*cast(tuple[Tensor, ...], exp_xs))\n\n        reduced_max_xs = functools.reduce(torch.add, max_xs)  # Do n-1 add instead of n.\n        if not keepdim:\n            reduced_max_xs = reduced_max_xs.squeeze(dim)  # To match shape of func_exp_x.\n        # Use the logarithm having a safe backward at zero, as for the complex semiring below\n        return safelog(func_exp_xs) + reduced_max_xs", new="        shifted = [xi - max_xi for xi, max_xi in zip(xs, max_xs)]\n        exp_xs = [torch.exp(s) for s in shifted]\n\n        # NOTE: exp_x is not tuple, but list still can be unpacked with *.\n        func_exp_xs = func(*cast(tuple[Tensor, ...], exp_xs))\n\n        reduced_max_xs = functools.reduce(torch.add, max_xs)  # Do n-1 add instead of n.\n        if not keepdim:\n            reduced_max_xs = reduced_max_xs.squeeze(dim)  # To match shape of func_exp_x.\n        return safelog(func_exp_xs) + reduced_max_xs", expect={}, quiet=True),
     dict(id="q-matcher-guard-split", file=COMP, old="        out_nodes = outcomings_fn(layer)\n        if len(out_nodes) > 1 and lid != 0:\n            return None", new="        out_nodes = outcomings_fn(layer)\n        if lid > 0:\n            if len(out_nodes) >= 2:\n                return None", expect={}, quiet=True),
     dict(id="q-compat-all-form", file=CIRC, old="        fs1, fs2 = sfs1[scope], sfs2[scope]\n        if len(fs1) != 1 or len(fs2) != 1:\n            return False\n        if fs1 != fs2:\n            return False\n    return True", new="        fs1, fs2 = sfs1[scope], sfs2[scope]\n        if not (len(fs1) == 1 and len(fs2) == 1 and fs1 == fs2):\n            return False\n    return True", expect={}, quiet=True),
     dict(id="q-evidence-rewire-loop-var", file=FUN, old="        in_blocks[evi_block] = [layers_to_block[isl] for isl in sc.layer_inputs(sl)]", new="        in_blocks[evi_block] = list(layers_to_block[x] for x in sc.layer_inputs(sl))", expect={}, quiet=True),
